@@ -736,14 +736,11 @@ func disassembleInstruction(fn *runtime.Function, globals []Global, addr runtime
 func funcNameType(fn *runtime.Function, index int8, addr runtime.Addr, op runtime.Operation) (bool, string, reflect.Type) {
 	switch op {
 	case runtime.OpCallFunc, runtime.OpCallMacro:
-		macro := fn.Functions[index].Macro
-		typ := fn.Functions[index].Type
-		name := fn.Functions[index].Name
-		return macro, name, typ
+		f := fn.Functions[uint8(index)]
+		return f.Macro, f.Name, f.Type
 	case runtime.OpCallNative:
-		name := fn.NativeFunctions[index].Name()
-		typ := reflect.TypeOf(fn.NativeFunctions[index].Func())
-		return false, name, typ
+		f := fn.NativeFunctions[uint8(index)]
+		return false, f.Name(), reflect.TypeOf(f.Func())
 	case runtime.OpCallIndirect, runtime.OpDefer:
 		return false, "", fn.InstructionInfo[addr].FuncType
 	case runtime.OpTailCall:
